@@ -2709,3 +2709,345 @@ Proof.
     unfold msz in *. cbn [tsize vsize] in Hm. lia.
   - inversion H; subst. split; [|exact Hm]. repeat split; assumption.
 Qed.
+
+(* ---------- the induction ---------- *)
+Definition P13 (f : nat) : Prop :=
+  (forall inl t v, good t v -> (2 * msz t v <= f)%nat -> exists evs, rf f inl t v = (evs, None)) /\
+  (forall t v, good t v -> (2 * msz t v + 1 <= f)%nat -> exists evs, ftop f t v = (evs, None)).
+
+Lemma Anyr_ok f dt dv : P13 f -> good dt dv -> (2 * msz dt dv <= f)%nat ->
+  exists evs, Anyr f dt dv = (evs, None).
+Proof.
+  intros [Hrf _] Hg Hf. unfold Anyr. destruct Hg as (Ht & Hv & Hc & Hd & Hs).
+  rewrite (ccok_cc_type dt Hc). apply Hrf; [repeat split; assumption|exact Hf].
+Qed.
+
+Lemma Ielem_ok f x : P13 f -> type_ok TIface = true -> hty TIface x = true -> dyn_ok x = true ->
+  sp TIface x -> (2 * msz TIface x <= f)%nat -> exists evs, Ielem f x = (evs, None).
+Proof.
+  intros [_ Hft] Ht Hv Hd Hs Hf. unfold Ielem.
+  destruct (hty_iface_nil x Hv) as [->|(dt & dv & -> & H1 & H3)]; [eexists; reflexivity|].
+  assert (Hc : ccok TIface) by (exists 1%nat; reflexivity).
+  destruct (good_iface dt dv (conj Ht (conj Hv (conj Hc (conj Hd Hs))))) as [Hg _].
+  apply Hft; [exact Hg|]. unfold msz in *. cbn [tsize vsize] in Hf. lia.
+Qed.
+
+Lemma Mapval_ok f et x : P13 f -> good et x -> (2 * msz et x <= f)%nat ->
+  exists evs, Mapval f et x = (evs, None).
+Proof.
+  intros HP Hg Hf. unfold Mapval. destruct (is_prim et) eqn:Ep.
+  - destruct Hg as (_ & Hv & _). destruct (prim_scalar_some true et x Ep Hv) as [s ->]. eexists; reflexivity.
+  - destruct (gtype_eqb et TIface) eqn:Ei.
+    + apply gtype_eqb_iface in Ei. subst et. destruct Hg as (Ht & Hv & Hc & Hd & Hs).
+      apply Ielem_ok; assumption.
+    + destruct HP as [Hrf _]. apply Hrf; assumption.
+Qed.
+
+Lemma map_case_ok f et v l1 l2 : P13 f -> good (TMap et) v -> (2 * msz (TMap et) v <= S f)%nat ->
+  exists evs, (fok l1 ;; Mapkeys f et (gmap v) ;; fok l2) = (evs, None).
+Proof.
+  intros HP Hg Hf. apply wrap_ok. unfold Mapkeys. apply seq_members_ok. intros kv Hkv.
+  apply Mapval_ok; [exact HP|eapply good_map_elem; eauto|].
+  pose proof (vsize_gmap_in v kv Hkv). unfold msz in *. cbn [tsize] in Hf. lia.
+Qed.
+
+Lemma slice_case_ok f et v l1 l2 : P13 f -> good (TSlice et) v -> (2 * msz (TSlice et) v <= S f)%nat ->
+  exists evs, (fok l1 ;; Elems f et (glist v) ;; fok l2) = (evs, None).
+Proof.
+  intros HP Hg Hf. apply wrap_ok. unfold Elems. apply seq_ok. intros x Hx.
+  destruct HP as [Hrf _]. apply Hrf; [eapply good_slice_elem; eauto|].
+  pose proof (vsize_glist_in v x Hx). unfold msz in *. cbn [tsize] in Hf. lia.
+Qed.
+
+Lemma array_case_ok f n et v l1 l2 : P13 f -> good (TArray n et) v -> (2 * msz (TArray n et) v <= S f)%nat ->
+  exists evs, (fok l1 ;; Elems f et (glist v) ;; fok l2) = (evs, None).
+Proof.
+  intros HP Hg Hf. apply wrap_ok. unfold Elems. apply seq_ok. intros x Hx.
+  destruct HP as [Hrf _]. apply Hrf; [eapply good_array_elem; eauto|].
+  pose proof (vsize_glist_in v x Hx). unfold msz in *. cbn [tsize] in Hf. lia.
+Qed.
+
+Lemma Resolved_ok f t' v' : P13 f -> good t' v' -> (2 * msz t' v' <= f)%nat ->
+  exists evs, Resolved f t' v' = (evs, None).
+Proof.
+  intros HP Hg Hf. unfold Resolved.
+  destruct t'; try (apply Anyr_ok; assumption).
+  pose proof Hg as (_ & Hv & _).
+  destruct (hty_iface_nil v' Hv) as [->|(dt & dv & -> & H1 & H3)]; [eexists; reflexivity|].
+  destruct (good_iface dt dv Hg) as [Hgd _]. apply Anyr_ok; [exact HP|exact Hgd|].
+  unfold msz in *. cbn [tsize vsize] in Hf. lia.
+Qed.
+
+Lemma Member_ok f name' oe ft fv g : P13 f ->
+  type_ok ft = true -> hty ft fv = true -> ccok ft -> dyn_ok fv = true ->
+  (oe && spec_empty (S g) ft fv = false -> sp ft fv) ->
+  (2 * msz ft fv <= f)%nat ->
+  exists evs, Member f name' oe ft fv = (evs, None).
+Proof.
+  intros HP Ht Hv Hc Hd Hs Hf. unfold Member. destruct oe.
+  - pose proof (resolve_spec f ft fv Ht Hv) as HR.
+    destruct (resolve f ft fv) as [[t' v']|] eqn:Er; [|eexists; reflexivity].
+    destruct HR as (A & _ & _). rewrite A in Hs. specialize (Hs eq_refl).
+    destruct (resolve_good f ft fv t' v' (conj Ht (conj Hv (conj Hc (conj Hd Hs)))) Er) as [Hg' Hm].
+    destruct (Resolved_ok f t' v' HP Hg' ltac:(lia)) as [e He].
+    eexists. apply fseq_intro; [reflexivity|exact He].
+  - specialize (Hs eq_refl). destruct HP as [Hrf _].
+    destruct (Hrf false ft fv (conj Ht (conj Hv (conj Hc (conj Hd Hs)))) Hf) as [e He].
+    eexists. apply fseq_intro; [reflexivity|exact He].
+Qed.
+
+Lemma Inl_ok f ft fv g ms : P13 f ->
+  type_ok ft = true -> hty ft fv = true -> dyn_ok fv = true ->
+  match under (snd (base_type ft)) with
+  | TStruct _ | TMap _ | TMapK _ => ccok (snd (base_type ft))
+  | _ => True
+  end ->
+  Sim g (S g) false ft fv = Some ms ->
+  (2 * msz ft fv <= f)%nat ->
+  exists evs, Inl f ft fv = (evs, None).
+Proof.
+  intros HP Ht Hv Hd Hcc HS Hf. unfold Inl. destruct (base_type ft) as [n bt] eqn:Eb. cbn [snd] in Hcc.
+  unfold Inl2. destruct (deref n fv) as [bv|] eqn:Ed; [|eexists; reflexivity].
+  destruct (hty_base ft n bt fv bv Ht Hv Eb Ed) as [Hbt Hbv].
+  pose proof (msz_base_le ft n bt fv bv Eb Ed) as Hm.
+  pose proof (dyn_ok_deref n fv bv Hd Ed) as Hbd.
+  destruct (Sim_base_inv g ft (S g) false n bt fv bv ms HS Eb Ed) as [G' HS'].
+  destruct (under bt) as [ | |k| |u|u|n0 u|u|u|l|u| ] eqn:Eu;
+    try (rewrite Sim_S, Eu in HS'; destruct bv; discriminate HS').
+  - (* interface *)
+    apply under_iface in Eu; [|exact Hbt]. subst bt.
+    destruct (hty_iface_nil bv Hbv) as [->|(dt & dv & -> & H1 & H3)]; [eexists; reflexivity|].
+    rewrite Sim_S in HS'. cbn [under] in HS'.
+    cbn [dyn_ok] in Hbd. apply andb_true_iff in Hbd. destruct Hbd as [Hbd Hd3].
+    apply andb_true_iff in Hbd. destruct Hbd as [Hd1 Hd2]. apply negb_true_iff in Hd2.
+    destruct (Sim_true_inv g G' dt dv ms H1 H3 Hd2 HS') as (m & b & bv' & Eb' & Ed' & Ho & g' & Hsp).
+    assert (Hgd : good dt dv).
+    { split; [exact H1|]. split; [exact H3|]. split.
+      - exists (S (tsize dt)). unfold cc_type in Hd1. destruct (cc (S (tsize dt)) dt); [discriminate Hd1|reflexivity].
+      - split; [exact Hd3|]. exists (m + g')%nat, (CObj ms). rewrite (spec_fold_ptr dt m b dv bv' g' Eb' Ed'). exact Hsp. }
+    assert (Hfd : (2 * msz dt dv <= f)%nat) by (unfold msz in *; cbn [tsize vsize] in Hm; lia).
+    destruct (Anyr_ok f dt dv HP Hgd Hfd) as [e0 He0]. rewrite He0.
+    destruct Hgd as (_ & _ & _ & _ & _).
+    assert (Hvs : (vsize dv <= f)%nat) by (unfold msz in Hfd; lia).
+    destruct (Anyr_okc f dt dv e0 (P12_all f) H1 H3 Hvs He0) as (tr & -> & Hsf).
+    (* the folded value is an object *)
+    pose proof (Hsf (m + S (msz dt dv))%nat ltac:(lia)) as Hbig.
+    rewrite (spec_fold_ptr dt m b dv bv' _ Eb' Ed') in Hbig.
+    destruct (spec_obj_shape _ b bv' _ Ho Hbig) as [cms Hc].
+    apply (embed_succeeds tr cms Hc).
+  - (* pointer: not a base type *)
+    exfalso. apply under_not_ptr in Eu; [|exact Hbt]. exact (base_type_not_ptr ft n bt Eb u Eu).
+  - (* map *)
+    assert (Hgb : good bt bv).
+    { destruct (Sim_at_base g G' false bt bv ms Hbt Hbv (base_type_not_ptr ft n bt Eb)) as [_ Hsp];
+        [destruct bt; try reflexivity; discriminate Eu|exact HS'|].
+      split; [exact Hbt|]. split; [exact Hbv|]. split; [exact Hcc|]. split; [exact Hbd|].
+      destruct Hsp as [g' Hsp]. exists g', (CObj ms). exact Hsp. }
+    destruct (good_under_map bt u bv Hgb Eu) as [Hgm Hts].
+    destruct bv; try (eexists; reflexivity).
+    unfold Mapkeys. apply seq_members_ok. intros kv Hkv.
+    apply Mapval_ok; [exact HP|apply (good_map_elem u (GMap kvs) kv Hgm Hkv)|].
+    pose proof (vsize_gmap_in (GMap kvs) kv Hkv) as Hlt. cbn [gmap] in Hlt.
+    unfold msz in *. cbn [tsize] in Hts. lia.
+  - (* struct *)
+    assert (Hgb : good bt bv).
+    { destruct (Sim_at_base g G' false bt bv ms Hbt Hbv (base_type_not_ptr ft n bt Eb)) as [_ Hsp];
+        [destruct bt; try reflexivity; discriminate Eu|exact HS'|].
+      split; [exact Hbt|]. split; [exact Hbv|]. split; [exact Hcc|]. split; [exact Hbd|].
+      destruct Hsp as [g' Hsp]. exists g', (CObj ms). exact Hsp. }
+    destruct bv; cbn [hty] in Hbv; rewrite Eu in Hbv; try discriminate Hbv.
+    destruct HP as [Hrf _]. apply Hrf; [exact Hgb|lia].
+Qed.
+
+Lemma Field1_ok f name tag ft fv fs vs g acc c : P13 f ->
+  type_ok ft = true -> hty ft fv = true ->
+  (exported name = true ->
+   let o := snd (parse_tags tag) in
+   t_squash o && t_omitempty o = false /\
+   (t_omit o = false ->
+    if t_squash o then
+      match under (snd (base_type ft)) with
+      | TStruct _ | TMap _ | TMapK _ => ccok (snd (base_type ft))
+      | _ => True
+      end
+    else ccok ft)) ->
+  dyn_ok fv = true ->
+  Sfields g ((name, tag, ft) :: fs) (fv :: vs) acc = Some c ->
+  (2 * msz ft fv <= f)%nat ->
+  (exists e, Field1 f name tag ft fv = (e, None)) /\ exists acc', Sfields g fs vs acc' = Some c.
+Proof.
+  intros HP Ht Hv Hcc Hd H Hf. rewrite Sfields_cons in H. unfold Field1.
+  destruct (exported name) eqn:Ex; cbn [negb] in *; [|split; [eexists; reflexivity|eauto]].
+  specialize (Hcc eq_refl). cbv zeta in Hcc. destruct Hcc as [_ Hcc].
+  destruct (parse_tags tag) as [tn o] eqn:Etag. cbn [snd] in *.
+  destruct (t_squash o && t_omitempty o); [discriminate H|].
+  destruct (t_omit o); [split; [eexists; reflexivity|eauto]|].
+  specialize (Hcc eq_refl).
+  destruct (t_squash o).
+  - destruct (Sim g (S g) false ft fv) as [ms|] eqn:ES; [|discriminate H].
+    split; [eapply Inl_ok; eauto|eauto].
+  - destruct (t_omitempty o && spec_empty (S g) ft fv) eqn:E.
+    + split; [|eauto]. apply (Member_ok f _ _ ft fv g HP Ht Hv Hcc Hd); [|exact Hf]. congruence.
+    + destruct (spec_fold g ft fv) as [x|] eqn:Es; [|discriminate H].
+      split; [|eauto]. apply (Member_ok f _ _ ft fv g HP Ht Hv Hcc Hd); [|exact Hf].
+      intros _. exists g, x. exact Es.
+Qed.
+
+Lemma Fields_ok f : P13 f -> forall fs vs gc g acc c,
+  type_ok_fields fs = true -> hty_fields fs vs = true -> cc_fields gc fs = None ->
+  forallb dyn_ok vs = true -> Sfields g fs vs acc = Some c ->
+  (2 * (tsum fs + vsum vs) <= f)%nat ->
+  exists e, Fields f fs vs = (e, None).
+Proof.
+  intros HP. induction fs as [|[[name tag] ft] fs IH]; intros vs gc g acc c Ht Hv Hc Hd HS Hf.
+  - rewrite Fields_nil_l. eexists; reflexivity.
+  - destruct vs as [|fv vs]; [discriminate Hv|]. rewrite Fields_cons.
+    cbn [type_ok_fields] in Ht. fold type_ok_fields in Ht.
+    apply andb_true_iff in Ht. destruct Ht as [Ht Ht4]. apply andb_true_iff in Ht. destruct Ht as [Ht Ht3].
+    cbn [hty_fields] in Hv. fold hty_fields in Hv. apply andb_true_iff in Hv. destruct Hv as [Hv1 Hv2].
+    apply cc_fields_cons in Hc. destruct Hc as [Hc1 Hc2].
+    cbn [forallb] in Hd. apply andb_true_iff in Hd. destruct Hd as [Hd1 Hd2].
+    cbn [tsum vsum fold_right] in Hf. fold tsum in Hf. fold (vsum vs) in Hf.
+    assert (Hcc : exported name = true ->
+       let o := snd (parse_tags tag) in
+       t_squash o && t_omitempty o = false /\
+       (t_omit o = false ->
+        if t_squash o then
+          match under (snd (base_type ft)) with
+          | TStruct _ | TMap _ | TMapK _ => ccok (snd (base_type ft))
+          | _ => True
+          end
+        else ccok ft)).
+    { intro Ex. specialize (Hc2 Ex). cbv zeta in *. destruct Hc2 as [A B]. split; [exact A|].
+      intro Eo. specialize (B Eo). destruct (t_squash (snd (parse_tags tag))).
+      - destruct (under (snd (base_type ft))); try exact I; exists gc; exact B.
+      - exists gc; exact B. }
+    destruct (Field1_ok f name tag ft fv fs vs g acc c HP Ht3 Hv1 Hcc Hd1 HS ltac:(unfold msz; lia))
+      as [[e1 H1] [acc' HS']].
+    destruct (IH vs gc g acc' c Ht4 Hv2 Hc1 Hd2 HS' ltac:(lia)) as [e2 H2].
+    exists (e1 ++ e2). apply fseq_intro; assumption.
+Qed.
+
+Lemma Fast_ok f u v r : P13 f -> good u v -> (2 * msz u v <= f)%nat ->
+  Fast f v u = Some r -> exists evs, r = (evs, None).
+Proof.
+  intros HP Hg Hf HF. unfold Fast in HF. pose proof Hg as (Ht & Hv & Hc & Hd & Hs).
+  destruct (prim_fold true u v) as [pe|]; [inversion HF; eexists; reflexivity|].
+  destruct u as [ | |k| |u|u|n0 u|u|u|l|u| ]; try discriminate HF.
+  - destruct u; try discriminate HF. apply Some_inj in HF. subst r.
+    apply wrap_ok. apply seq_ok. intros x Hx.
+    destruct (good_slice_elem TIface v x Hg Hx) as (H1 & H2 & H3 & H4 & H5).
+    apply Ielem_ok; try assumption.
+    pose proof (vsize_glist_in v x Hx). unfold msz in *. cbn [tsize] in *. lia.
+  - destruct u; try discriminate HF. apply Some_inj in HF. subst r.
+    apply wrap_ok. apply seq_members_ok. intros kv Hkv.
+    destruct (good_map_elem TIface v kv Hg Hkv) as (H1 & H2 & H3 & H4 & H5).
+    apply Ielem_ok; try assumption.
+    pose proof (vsize_gmap_in v kv Hkv). unfold msz in *. cbn [tsize] in *. lia.
+Qed.
+
+Lemma good_struct fs vs : good (TStruct fs) (GStruct vs) ->
+  type_ok_fields fs = true /\ hty_fields fs vs = true /\ (exists gc, cc_fields gc fs = None) /\
+  forallb dyn_ok vs = true /\ exists g c, Sfields g fs vs [] = Some c.
+Proof.
+  intros (Ht & Hv & Hc & Hd & (g & c & Hs)). split; [exact Ht|]. split; [exact Hv|]. split.
+  - apply ccok_inv in Hc. destruct Hc as [gc Hc]. rewrite cc_S in Hc. eauto.
+  - split; [exact Hd|]. destruct g as [|g]; [rewrite spec_fold_O in Hs; discriminate Hs|].
+    rewrite spec_fold_S in Hs. cbn [under] in Hs. exists g, c. exact Hs.
+Qed.
+
+Lemma ccok_unsup : ccok TUnsup -> False.
+Proof. intro Hc. apply ccok_inv in Hc. destruct Hc as [gc Hc]. rewrite cc_S in Hc. discriminate Hc. Qed.
+
+Lemma msz_named u v : msz (TNamed u) v = S (msz u v).
+Proof. reflexivity. Qed.
+
+Theorem P13_all : forall f, P13 f.
+Proof.
+  induction f as [|f IH].
+  - split.
+    + intros inl t v _ Hf. unfold msz in Hf. pose proof (vsize_pos v). lia.
+    + intros t v _ Hf. lia.
+  - split.
+    + intros inl t v Hg Hf. rewrite rf_S. pose proof Hg as (Ht & Hv & Hc & Hd & Hs).
+      destruct (prim_fold false t v) as [pe|] eqn:Ep; [eexists; reflexivity|].
+      destruct t as [ | |k| |u|u|n0 u|u|u|fs|u| ].
+      * exfalso. unfold prim_fold in Ep. destruct (prim_scalar_some false TBool v eq_refl Hv) as [s Es].
+        rewrite Es in Ep. discriminate Ep.
+      * exfalso. unfold prim_fold in Ep. destruct (prim_scalar_some false TString v eq_refl Hv) as [s Es].
+        rewrite Es in Ep. discriminate Ep.
+      * exfalso. unfold prim_fold in Ep. destruct (prim_scalar_some false (TNum k) v eq_refl Hv) as [s Es].
+        rewrite Es in Ep. discriminate Ep.
+      * (* interface *)
+        destruct (hty_iface_nil v Hv) as [->|(dt & dv & -> & H1 & H3)]; [eexists; reflexivity|].
+        destruct (good_iface dt dv Hg) as [Hgd _]. apply Anyr_ok; [exact IH|exact Hgd|].
+        unfold msz in *. cbn [tsize vsize] in Hf. lia.
+      * (* pointer *)
+        destruct (base_type (TPtr u)) as [n bt] eqn:Eb.
+        destruct (deref n v) as [bv|] eqn:Ed; [|eexists; reflexivity].
+        assert (Hn : (1 <= n)%nat).
+        { cbn [base_type] in Eb. destruct (base_type u). inversion Eb. lia. }
+        destruct IH as [Hrf _]. apply Hrf; [eapply good_base; eauto|].
+        rewrite (msz_base _ _ _ _ _ Eb Ed) in Hf. lia.
+      * exact (slice_case_ok f u v _ _ IH Hg Hf).
+      * exact (array_case_ok f n0 u v _ _ IH Hg Hf).
+      * exact (map_case_ok f u v _ _ IH Hg Hf).
+      * exfalso. exact (ccok_not_mapk (TMapK u) u Hc eq_refl).
+      * (* struct *)
+        destruct v; try discriminate Hv.
+        destruct (good_struct fs vs Hg) as (H1 & H2 & (gc & H3) & H4 & (g & c & H5)).
+        unfold msz in Hf. rewrite tsize_struct, vsize_struct in Hf.
+        destruct (Fields_ok f IH fs vs gc g [] c H1 H2 H3 H4 H5 ltac:(lia)) as [e He].
+        destruct inl; [eauto|]. apply wrap_ok. eauto.
+      * (* named *)
+        assert (Hn : named_ok u = true) by (cbn [type_ok] in Ht; apply andb_true_iff in Ht; apply Ht).
+        pose proof (good_named u v Hn Hg) as Hgu. rewrite msz_named in Hf.
+        destruct u as [ | |k| |u|u|n0 u|u|u|fs|u| ]; try discriminate Hn.
+        -- destruct Hgu as (_ & Hvu & _). destruct (prim_scalar_some false TBool v eq_refl Hvu) as [s ->]. eexists; reflexivity.
+        -- destruct Hgu as (_ & Hvu & _). destruct (prim_scalar_some false TString v eq_refl Hvu) as [s ->]. eexists; reflexivity.
+        -- destruct Hgu as (_ & Hvu & _). destruct (prim_scalar_some false (TNum k) v eq_refl Hvu) as [s ->]. eexists; reflexivity.
+        -- exact (slice_case_ok f u v _ _ IH Hgu ltac:(lia)).
+        -- exact (array_case_ok f n0 u v _ _ IH Hgu ltac:(lia)).
+        -- exact (map_case_ok f u v _ _ IH Hgu ltac:(lia)).
+        -- exfalso. destruct Hgu as (_ & _ & Hcu & _). exact (ccok_not_mapk (TMapK u) u Hcu eq_refl).
+      * exfalso. exact (ccok_unsup Hc).
+    + intros t v Hg Hf. rewrite ftop_S.
+      assert (Hf' : (2 * msz t v <= f)%nat) by lia.
+      destruct (Fast f v t) as [r|] eqn:EF; [exact (Fast_ok f t v r IH Hg Hf' EF)|].
+      destruct t as [ | |k| |u|u|n0 u|u|u|fs|u| ]; try (exact (Anyr_ok f _ v IH Hg Hf')).
+      pose proof Hg as (Ht & _).
+      assert (Hn : named_ok u = true) by (cbn [type_ok] in Ht; apply andb_true_iff in Ht; apply Ht).
+      pose proof (good_named u v Hn Hg) as Hgu. rewrite msz_named in Hf'.
+      destruct u as [ | |k| |u|u|n0 u|u|u|fs|u| ]; try (exact (Anyr_ok f _ v IH Hg ltac:(rewrite msz_named; lia))).
+      * destruct (Fast f v (TSlice u)) as [r|] eqn:EF2; [|exact (Anyr_ok f _ v IH Hg ltac:(rewrite msz_named; lia))].
+        exact (Fast_ok f _ v r IH Hgu ltac:(lia) EF2).
+      * destruct (Fast f v (TMap u)) as [r|] eqn:EF2; [|exact (Anyr_ok f _ v IH Hg ltac:(rewrite msz_named; lia))].
+        exact (Fast_ok f _ v r IH Hgu ltac:(lia) EF2).
+Qed.
+
+(* C12, converse, with the two guards the counterexamples call for: what the documented
+   mapping accepts, Fold accepts *)
+Theorem C12_fold_accepts_guarded : forall t v F c,
+  has_type t v = true -> cc_type t = None -> dyn_ok v = true ->
+  spec_fold F t v = Some c -> snd (fold_value t v) = None.
+Proof.
+  intros t v F c Hh Hc Hd Hs. unfold has_type in Hh. apply andb_true_iff in Hh. destruct Hh as [Ht Hv].
+  assert (Hg : good t v).
+  { split; [exact Ht|]. split; [exact Hv|]. split; [eexists; exact Hc|]. split; [exact Hd|].
+    exists F, c. exact Hs. }
+  destruct (P13_all (4 * (tsize t + vsize v) + 8)) as [_ Hft].
+  destruct (Hft t v Hg ltac:(unfold msz; lia)) as [evs He].
+  unfold fold_value. destruct v; try (rewrite He; reflexivity).
+  destruct t; try (rewrite He; reflexivity). reflexivity.
+Qed.
+Print Assumptions C12_fold_accepts_guarded.
+
+(* in the form asked for: a supported static type *)
+Corollary C12_fold_accepts : forall t v F c,
+  has_type t v = true -> spec_supported (S (tsize t)) t = true -> dyn_ok v = true ->
+  spec_fold F t v = Some c -> snd (fold_value t v) = None.
+Proof.
+  intros t v F c Hh Hsup. apply C12_fold_accepts_guarded; [exact Hh|].
+  apply supported_compiles. exact Hsup.
+Qed.
+Print Assumptions C12_fold_accepts.
